@@ -36,6 +36,7 @@ def _cm_cases(draw, max_size=10):
     return dict(s=s, thr=thr, sorted=draw(st.booleans()),
                 via=draw(st.sampled_from(["ctor", "ctor", "labels", "labels", "lists", "swap-twice"])), dtype=f32,
                 label_kind=draw(st.sampled_from(["int", "float-ids", "float-tiny", "str", "bool"])),
+                flag_kind=draw(st.sampled_from(["py", "py", "np", "int"])),
                 thr_as=draw(st.sampled_from(["array", "array", "list", "F", "f32", "f16", "int"])))
 
 
@@ -63,8 +64,13 @@ def _build(case, sc, ec):
             idx = list(range(len(la)))[::-1]
             la, sa = pd.Series(la, index=idx), pd.Series(sa, index=idx)
         return Scores.from_labels(la, sa, **kw)
+    # the is_sorted flag as a literal, as a NumPy bool (np.all(np.diff(x) >= 0)) or as 0 / 1
+    fk = case.get("flag_kind", "py")
+    flag = (lambda b: {"py": b, "np": np.bool_(b), "int": int(b)}[fk])
     if case.get("sorted"):
-        return Scores(np.sort(pos), np.sort(neg), is_sorted=True, **kw)
+        return Scores(np.sort(pos), np.sort(neg), is_sorted=flag(True), **kw)
+    if fk != "py" and case.get("via") == "ctor":
+        return Scores(pos, neg, is_sorted=flag(False), **kw)
     if case.get("via") == "swap-twice":  # an object handed out by the library
         return Scores(pos, neg, **kw).swap().swap()
     return Scores(pos, neg, **kw)
